@@ -319,7 +319,7 @@ func extractDecoderCfg(repo, root string) error {
 		facts["G1"], facts["G2"], facts["G3"], facts["G4"], facts["G5"])
 	fmt.Fprintf(&sb, "-- SASL raw exchange (saslauthenticate readResp): G6 negative length rejected=%v  G7 no allocation sized by the length=%v\n", facts["G6"], facts["G7"])
 	fmt.Fprintf(&sb, "-- G8 arrays allocated as their elements arrive (decodeElems: first makeArray capped by arrayChunk, loop stops at the first error)=%v\n", facts["G8"])
-	fmt.Fprintf(&sb, "def decoderCfg : KV.Codec.Cfg := { bounded := %v }\n", bounded)
+	fmt.Fprintf(&sb, "def decoderCfg : KV.Codec.Cfg := { bounded := %v, growing := %v }\n", bounded, facts["G8"] && facts["G9"])
 	fmt.Fprintf(&sb, "/-- G8: a count that is within the ANNOUNCED frame size but beyond what was received does not allocate ahead of the data -/\ndef arraysGrow : Bool := %v\n", facts["G8"])
 	fmt.Fprintf(&sb, "/-- G9: decoder.read allocates an announced string / bytes length only up to readChunk; longer values grow with the bytes received -/\ndef readsGrow : Bool := %v\n", facts["G9"])
 	fmt.Fprintf(&sb, "/-- G10: the tagged-field loops (response header, request header, flexible structs) stop at the first decoder error -/\ndef tagLoopsStop : Bool := %v\n", facts["G10"])
